@@ -132,7 +132,7 @@ pub enum Entry {
     /// on_connection_handler_event
     HandlerEvent { conn: u64, peer: PeerId, tag: u64, from_field: u8 },
     /// behaviour emitted a NotifyHandler from poll
-    EmitNotify { peer: PeerId, one: Option<u64>, n: u64 },
+    EmitNotify { peer: PeerId, one: Option<u64>, n: u64, snapshot: Vec<u64> },
     EmitOther(String),
     // handler callbacks
     HNew { conn: u64 },
@@ -537,7 +537,8 @@ impl NetworkBehaviour for Probe {
                         libp2p_swarm::NotifyHandler::One(c) => Some(cid(*c)),
                         libp2p_swarm::NotifyHandler::Any => None,
                     };
-                    push(&self.log, self.node, self.field, Entry::EmitNotify { peer: *peer_id, one, n: event.n });
+                    let snapshot: Vec<u64> = self.established.iter().filter(|(p, _)| p == peer_id).map(|(_, c)| *c).collect();
+                    push(&self.log, self.node, self.field, Entry::EmitNotify { peer: *peer_id, one, n: event.n, snapshot });
                 }
                 other => {
                     let d = format!("{other:?}");
